@@ -342,6 +342,38 @@ theorem verifyCredentials_ok_sent_m3 {C : Crypto} {t : Transport} {cr : Creds} {
             · simp_all
             · exact ⟨m3, by simp⟩
 
+/-- M3 is only ever sent after every check of M2 passed -/
+theorem accepted_of_sent_m3 {C : Crypto} {t : Transport} {cr : Creds} {cl : Client} {r : Reply}
+    {ev : Ev} (hev : ev ∈ (verifyCredentials C t cr cl r).1) (hs : ev.isSendM3 = true) :
+    Accepted C t cr cl r := by
+  unfold verifyCredentials at hev
+  split at hev
+  · simp at hev
+  · rename_i tlv hpd
+    split at hev
+    · simp at hev
+    · rename_i pub hpub
+      split at hev
+      · simp at hev
+      · rename_i enc henc
+        have hno := verify1_trace_no_enable C cr cl pub enc
+        split at hev
+        · rename_i tr e hv
+          rw [hv] at hno
+          have := (hno ev hev).2
+          rw [hs] at this; cases this
+        · rename_i tr sh m3 hv
+          have hv2 : (verify1 C cr cl pub enc).2 = .ok (sh, m3) := by rw [hv]
+          exact ⟨pub, enc, sh, ⟨tlv, hpd, hpub, henc⟩, (verify1_ok hv2).1⟩
+
+theorem no_m3_unless_accepted {C : Crypto} {t : Transport} {cr : Creds} {cl : Client} {r : Reply}
+    (h : ¬ Accepted C t cr cl r) :
+    ∀ ev ∈ (verifyCredentials C t cr cl r).1, ev.isSendM3 = false := by
+  intro ev hev
+  cases hs : ev.isSendM3 with
+  | false => rfl
+  | true => exact absurd (accepted_of_sent_m3 hev hs) h
+
 /-- (output_key, input_key) a transport derives from the X25519 shared secret (`verify2`) -/
 def transportKeys (C : Crypto) (t : Transport) (shared : Bytes) : Bytes × Bytes :=
   (C.hkdf (kdfParams t).1 (kdfParams t).2.1 shared, C.hkdf (kdfParams t).1 (kdfParams t).2.2 shared)
